@@ -388,76 +388,82 @@ func toFloat(data interface{}, i int) (float64, bool) {
 	return 0, false
 }
 
-func recordRun(rec *recorder, rng *rand.Rand, trials int, repo string) int {
-	for trial := 0; trial < trials; trial++ {
-		// grow a program node by node; a node whose values leave the exactly representable range ends the program
-		b := &progBuilder{r: rng}
-		inShapes := map[string][]int{"a": rshape(rng, 1, 3, 4), "b": rshape(rng, 1, 3, 4)}
-		b.scope = []scopeT{{"a", inShapes["a"]}, {"b", inShapes["b"]}}
-		b.addInit(rtensor(rng, "f32", []int{2}, -1, 1)) // never empty: an empty TLA+ function has no JSON form
-		want := 4 + rng.Intn(6)
-		mk := func() mModel {
-			m := mModel{Nodes: b.nodes, Inits: b.inits, Opset: 13}
-			for _, n := range []string{"a", "b"} {
-				in := mInput{Name: n, Dt: "f32"}
-				for range inShapes[n] {
-					in.Dims = append(in.Dims, mDim{Kind: "none"})
-				}
-				m.Inputs = append(m.Inputs, in)
+// randomProgram grows a program node by node from the operator catalogue; a node that fails or whose values leave the
+// exactly representable range is taken back. It returns the model, the shapes of its two inputs and a feed generator.
+func randomProgram(rng *rand.Rand) (mModel, map[string][]int, func() (gonnx.Tensors, map[string]interface{}), bool) {
+	b := &progBuilder{r: rng}
+	inShapes := map[string][]int{"a": rshape(rng, 1, 3, 4), "b": rshape(rng, 1, 3, 4)}
+	b.scope = []scopeT{{"a", inShapes["a"]}, {"b", inShapes["b"]}}
+	b.addInit(rtensor(rng, "f32", []int{2}, -1, 1)) // never empty: an empty TLA+ function has no JSON form
+	want := 4 + rng.Intn(6)
+	mk := func() mModel {
+		m := mModel{Nodes: b.nodes, Inits: b.inits, Opset: 13}
+		for _, n := range []string{"a", "b"} {
+			in := mInput{Name: n, Dt: "f32"}
+			for range inShapes[n] {
+				in.Dims = append(in.Dims, mDim{Kind: "none"})
 			}
-			used := map[string]bool{}
-			for _, n := range b.nodes {
-				for _, i := range n.Ins {
-					used[i] = true
-				}
-			}
-			for _, n := range b.nodes {
-				for _, o := range n.Outs {
-					if !used[o] || rng.Intn(4) == 0 {
-						m.Outputs = append(m.Outputs, o)
-					}
-				}
-			}
-			return m
+			m.Inputs = append(m.Inputs, in)
 		}
-		feed := func() (gonnx.Tensors, map[string]interface{}) {
-			f, ev := gonnx.Tensors{}, map[string]interface{}{}
-			for _, n := range []string{"a", "b"} {
-				at := rtensor(rng, "f32", inShapes[n], -3, 3)
-				t, _ := MkTensor(at)
-				f[n] = t
-				ev[n] = evTensor(at, false)
-			}
-			return f, ev
-		}
-		for tries := 0; len(b.nodes) < want && tries < 60; tries++ {
-			save := *b
-			saveNodes, saveInits, saveScope := append([]mNode{}, b.nodes...), append([]mInit{}, b.inits...), append([]scopeT{}, b.scope...)
-			if !b.step() {
-				continue
-			}
-			bytesModel, err := buildModel(mk())
-			ok := err == nil
-			if ok {
-				model, err := gonnx.NewModelFromBytes(bytesModel)
-				ok = err == nil
-				if ok {
-					for k := 0; k < 2 && ok; k++ {
-						f, _ := feed()
-						out, err := model.Run(f)
-						ok = err == nil && absMax(out) < 20000
-					}
-				}
-			}
-			if !ok { // take the node back (the specification's integers are 32 bits wide; failing requests are C03..C09 material)
-				*b = save
-				b.nodes, b.inits, b.scope = saveNodes, saveInits, saveScope
+		used := map[string]bool{}
+		for _, n := range b.nodes {
+			for _, i := range n.Ins {
+				used[i] = true
 			}
 		}
-		if len(b.nodes) == 0 {
+		for _, n := range b.nodes {
+			for _, o := range n.Outs {
+				if !used[o] || rng.Intn(4) == 0 {
+					m.Outputs = append(m.Outputs, o)
+				}
+			}
+		}
+		return m
+	}
+	feed := func() (gonnx.Tensors, map[string]interface{}) {
+		f, ev := gonnx.Tensors{}, map[string]interface{}{}
+		for _, n := range []string{"a", "b"} {
+			at := rtensor(rng, "f32", inShapes[n], -3, 3)
+			t, _ := MkTensor(at)
+			f[n] = t
+			ev[n] = evTensor(at, false)
+		}
+		return f, ev
+	}
+	for tries := 0; len(b.nodes) < want && tries < 60; tries++ {
+		save := *b
+		saveNodes, saveInits, saveScope := append([]mNode{}, b.nodes...), append([]mInit{}, b.inits...), append([]scopeT{}, b.scope...)
+		if !b.step() {
 			continue
 		}
-		m := mk()
+		bytesModel, err := buildModel(mk())
+		ok := err == nil
+		if ok {
+			model, err := gonnx.NewModelFromBytes(bytesModel)
+			ok = err == nil
+			if ok {
+				for k := 0; k < 2 && ok; k++ {
+					f, _ := feed()
+					out, err := model.Run(f)
+					ok = err == nil && absMax(out) < 20000
+				}
+			}
+		}
+		if !ok { // take the node back (the specification's integers are 32 bits wide; failing requests are C03..C09 material)
+			*b = save
+			b.nodes, b.inits, b.scope = saveNodes, saveInits, saveScope
+		}
+	}
+	return mk(), inShapes, feed, len(b.nodes) > 0
+}
+
+func recordRun(rec *recorder, rng *rand.Rand, trials int, repo string) int {
+	for trial := 0; trial < trials; trial++ {
+		m, _, feed, ok := randomProgram(rng)
+		if !ok {
+			continue
+		}
+
 		bytesModel, err := buildModel(m)
 		if err != nil {
 			fmt.Println("run recorder:", err)
